@@ -276,6 +276,8 @@ def ref_format(v, cmap, rec, depth):
             out.append(ref_str(obj))
         return ''.join(out)
     if isinstance(v, dict):
+        if 'sic' in v:
+            return v['sic']         # !sic: the literal text, whatever it is (also the empty string)
         if 'l' in v:
             return {'l': [ref_format(x, cmap, rec, depth + 1) for x in v['l']]}
         if 't' in v:
